@@ -46,6 +46,8 @@ def run(ctx):
         if not bad:
             ctx.ob("W-ENUM", "%s: every token-start read is preceded by a space skip" % nm, True)
 
+    import maps
+    maps.rule_K_COPULAS(ctx)
     # ---- W-LEX
     ctx.rule("W-LEX", "every lexical entry that takes a &str idealises it first: the only char environment handed to parse/segment "
              "functions is the result of idealize_env(format, input); idealize_env filters out every char for which the format's "
